@@ -749,3 +749,15 @@ func constsOfType(c *Ctx, t *types.Named) []namedConst {
 	}
 	return out
 }
+
+// negateCmp: the comparison that holds when op does not; flipCmp: op with its operands exchanged.
+func negateCmp(op token.Token) token.Token {
+	return map[token.Token]token.Token{token.LSS: token.GEQ, token.GEQ: token.LSS, token.GTR: token.LEQ, token.LEQ: token.GTR, token.EQL: token.NEQ, token.NEQ: token.EQL}[op]
+}
+
+func flipCmp(op token.Token) token.Token {
+	if f, ok := map[token.Token]token.Token{token.LSS: token.GTR, token.GTR: token.LSS, token.GEQ: token.LEQ, token.LEQ: token.GEQ}[op]; ok {
+		return f
+	}
+	return op
+}
